@@ -80,7 +80,8 @@ theorem b_inverse (o n : Int) (h : wd o < 5) :
 time of day unchanged -/
 theorem b_datetime (t n t' : Int) (h : applyStep t (.bday n) = .ok t') :
     ordOf t' = ordOf t + bOff (wd (ordOf t)) n ∧ todOf t' = todOf t ∧ wd (ordOf t') < 5 := by
-  simp only [applyStep, wdOf, checkRange_ok] at h
+  have h := bday_ok t n t' h
+  simp only [wdOf] at h
   rw [h.2]
   refine ⟨ordOf_add_days _ _, todOf_add_days _ _, ?_⟩
   rw [ordOf_add_days]; exact b_lands _ _
@@ -98,7 +99,8 @@ theorem b_mono_intraday_false :
 monotonicity does hold: here for any two instants on weekdays -/
 theorem b_mono_weekdays (t₁ t₂ n r₁ r₂ : Int) (h : t₁ ≤ t₂) (w₁ : wdOf t₁ < 5) (w₂ : wdOf t₂ < 5)
     (h₁ : applyStep t₁ (.bday n) = .ok r₁) (h₂ : applyStep t₂ (.bday n) = .ok r₂) : r₁ ≤ r₂ := by
-  simp only [applyStep, checkRange_ok] at h₁ h₂
+  have h₁ := bday_ok _ _ _ h₁
+  have h₂ := bday_ok _ _ _ h₂
   rw [h₁.2, h₂.2]
   by_cases hd : ordOf t₁ = ordOf t₂
   · unfold wdOf; rw [hd]; omega
